@@ -5,7 +5,7 @@
 // Emitted (Gen/CursorPrepCtx.lean):
 //
 //   - `contextFn`     the statements of ContextForPreparedStatement(ctx, values) in the IR of Model/CursorStmt.lean
-//     (`return e`, `if c { return e }`; e: `ctx` / `context.WithValue(a, b, c)`; c: emptiness tests of values.Values);
+//     (`return e`, `if c { return e }`, `values.Outer = x`; e: `ctx` / `context.WithValue(a, b, c)`; c: emptiness tests of values.Values);
 //     anything else becomes `.other "<source>"`, which the model's interpreter refuses.
 //   - `contextFnParams`  its parameter names.
 //   - `callSites`     every call of ContextForPreparedStatement in the non-test files of lib/query: file, enclosing
@@ -69,6 +69,12 @@ func ctxStmts(stmts []ast.Stmt) []string {
 					out = append(out, "(.ifRet "+ctxCond(x.Cond)+" "+ctxExpr(r.Results[0])+")")
 					continue
 				}
+			}
+		case *ast.AssignStmt:
+			// `values.Outer = <expr>`: the frame records the context it is written in
+			if x.Tok == token.ASSIGN && len(x.Lhs) == 1 && len(x.Rhs) == 1 && loose(x.Lhs[0]) == "values.Outer" {
+				out = append(out, "(.setOuter "+leanQ(loose(x.Rhs[0]))+")")
+				continue
 			}
 		}
 		out = append(out, "(.other "+leanQ(strings.Join(fx([]ast.Stmt{s}), " "))+")")
@@ -222,6 +228,38 @@ func mainPrepCtx(args []string) {
 	b.WriteString("/-- how the USING list of an OPEN statement reaches Cursor.Open: file, function, call -/\n")
 	b.WriteString("def openCursorSites : List (String × String × String) := [" + strings.Join(openSites, ",\n  ") + "]\n\n")
 	b.WriteString("/-- evalPlaceholder (eval.go), whole statement structure -/\ndef fxEvalPlaceholder : List String := " + leanStrList(fx(evalPh.Body.List)) + "\n\n")
+	// in which context the value expression is evaluated: every `return Evaluate(X, scope, replace.Values[idx])` of
+	// evalPlaceholder with the condition of the `if` it stands in ("" : at the top level of the function)
+	var evalIn []string
+	evalCall := func(r *ast.ReturnStmt) (string, bool) {
+		if len(r.Results) != 1 {
+			return "", false
+		}
+		c, ok := r.Results[0].(*ast.CallExpr)
+		if !ok || loose(c.Fun) != "Evaluate" || len(c.Args) != 3 {
+			return "", false
+		}
+		return loose(c.Args[0]) + " | " + loose(c.Args[2]), true
+	}
+	for _, st := range evalPh.Body.List {
+		switch x := st.(type) {
+		case *ast.ReturnStmt:
+			if a, ok := evalCall(x); ok {
+				evalIn = append(evalIn, fmt.Sprintf("(%s, %s)", leanQ(""), leanQ(a)))
+			}
+		case *ast.IfStmt:
+			ast.Inspect(x.Body, func(n ast.Node) bool {
+				if r, ok := n.(*ast.ReturnStmt); ok {
+					if a, ok := evalCall(r); ok {
+						evalIn = append(evalIn, fmt.Sprintf("(%s, %s)", leanQ(loose(x.Cond)), leanQ(a)))
+					}
+				}
+				return true
+			})
+		}
+	}
+	b.WriteString("/-- evalPlaceholder: the condition under which, and `context | expression` with which, Evaluate is called -/\n")
+	b.WriteString("def evalIn : List (String × String) := [" + strings.Join(evalIn, ", ") + "]\n\n")
 	b.WriteString("/-- NewReplaceValues (prepared_statement.go), whole statement structure -/\ndef fxNewReplaceValues : List String := " + leanStrList(fx(newRV.Body.List)) + "\n\n")
 	b.WriteString("end Csvq.Gen.CursorPrepCtx\n")
 	fmt.Print(b.String())
